@@ -700,7 +700,8 @@ def run_composed(real, ents, R, limit=None):
                 continue
             except Exception as e:  # noqa
                 td = table_defect(real, ("load_throughput", "load_throughput_default", "store_throughput", "store_throughput_default"))
-                if td:
+                # a malformed table is only blamed when the costing function itself gave up
+                if td and exception_key(e).endswith("hw_model.average_port_pressure"):
                     R.count("crash_on_malformed_entry")
                     R.observe("crashes", "%s %s: %s" % (real.arch, td[0], exception_key(e)))
                     R.violation(mkey(real.arch, td[0], td[1]), "%s `%s`: composition with malformed %s -> %s: %s" % (real.arch, line, td[0], type(e).__name__, str(e)[:80]),
